@@ -37,7 +37,7 @@ func checkC04(c *Ctx, r *Report) {
 				viol = fmt.Sprintf("expected one loop over route.Security in %s, found %d", gos, len(loops))
 			} else {
 				g := w.cfgOf(fi)
-				s, v := w.eachIteration(fi, g, loops[0], w.appendTo(fi, identNamed("securityRequirements")), nil, true)
+				s, v := w.eachIteration(fi, g, loops[0], w.appendTo(fi, w.resultSlice(fi)), nil, true)
 				sites, viol = s, v
 				// the collection must not depend on the controller's list or anything else of the route
 				at := w.exprAtoms(fi, loops[0].X)
@@ -372,7 +372,9 @@ func checkSecuritySchemes(c *Ctx, r *Report, clause, ver, pkgRel string) {
 	}
 	// every configured scheme is emitted under its SecurityName
 	ruleEach(c, r, clause, gss,
-		func(fi *FuncInfo) func(ast.Expr) bool { return w.rangeOverType(fi, "[]definitions.SecuritySchemeConfig") }, "*securityConfig",
+		func(fi *FuncInfo) func(ast.Expr) bool {
+			return w.rangeOverType(fi, "[]definitions.SecuritySchemeConfig")
+		}, "*securityConfig",
 		func(fi *FuncInfo) func(ast.Node) bool {
 			return func(n ast.Node) bool {
 				switch x := n.(type) {
